@@ -118,8 +118,9 @@ class HashTable:
 
     def _fill_values(self):
         if isinstance(self._values, Number):
+            dtype = self._value_dtype if self._value_dtype is not None else np.asarray(self._values).dtype
             self._values = self._values * np.ones_like(
-                self._keys, dtype=self._value_dtype
+                self._keys, dtype=dtype
             )
             self._values._safe_mode = False
 
